@@ -95,6 +95,18 @@ join_o = Function("join_o", Str, Ref, Str)             # sep.join(x) for an opaq
 fmt_apply = Function("fmt_apply", Ref, Ref, Ref)       # fmt.format(**mapping)
 chars = Function("chars", Str, SSeq)                   # list(s): the characters of s ("".join(chars(s)) = s)
 ocall2_str = Function("ocall2_str", Ref, Ref, Ref, Str)  # the string a user function f(a, b) returns (A7: deterministic)
+# --- nrpickler work-list scheduler (C10): queue items and real events as values (A13: nothing depends on the identity of an item)
+mk_save = Function("mk_save", Ref, Ref)                # _LazySave(obj)
+mk_memo = Function("mk_memo", Ref, Ref)                # _LazyMemo(obj)
+item_obj = Function("item_obj", Ref, Ref)              # item.obj
+pack1 = Function("pack1", Ref, Ref)                    # the argument tuple (x,)
+ev_w = Function("ev_w", Ref, Ref)                      # real event: realwrite(*args)
+ev_m = Function("ev_m", Ref, Ref)                      # real event: realmemoize(obj)
+pk_body = Function("pk_body", Ref, RSeq, RSeq)         # tokens dill's save(obj) feeds to write / memoize / save, given the events so far
+pk_exec = Function("pk_exec", RSeq, RSeq, RSeq)        # depth-first execution of a queue from a trace (lean/Scheduler.lean: Exec)
+pk_aq = Function("pk_aq", RSeq, RSeq, RSeq, RSeq)      # applyTok tokens Q R: the queue afterwards
+pk_ar = Function("pk_ar", RSeq, RSeq, RSeq, RSeq)      # applyTok tokens Q R: the trace afterwards
+py_ge = Function("py_ge", Ref, Int, Bool)              # opaque value >= int
 
 _counter = itertools.count()
 
@@ -444,7 +456,7 @@ class Scanner:
     wrappers of z3 are too slow for the term sizes produced by explicit heap updates)."""
 
     CATS = ("cnt", "rem1", "without", "dedup", "setnth", "minus", "sub", "nth", "ref", "mkpair", "cls_ref", "mro_at", "mro_len",
-            "str_box", "rx_compile")
+            "str_box", "rx_compile", "mk_save", "mk_memo")
 
     def __init__(self):
         self.ctx = z3.main_ctx()
@@ -454,7 +466,7 @@ class Scanner:
         self.ufid = {}
         for name, f in (("cnt", cnt), ("rem1", rem1), ("without", without), ("dedup", dedup), ("setnth", setnth), ("minus", minus), ("sub", sub),
                         ("mkpair", mkpair), ("cls_ref", cls_ref), ("mro_at", mro_at), ("mro_len", mro_len), ("str_box", str_box),
-                        ("rx_compile", rx_compile)):
+                        ("rx_compile", rx_compile), ("mk_save", mk_save), ("mk_memo", mk_memo)):
             self.ufid[_c.Z3_get_ast_id(self.cref, _c.Z3_func_decl_to_ast(self.cref, f.ast))] = name
         self.ref_sort_id = _c.Z3_get_ast_id(self.cref, _c.Z3_sort_to_ast(self.cref, Ref.ast))
 
@@ -569,6 +581,11 @@ def axioms_for(found, class_axioms, seen_cls):
     for t in found.get("rx_compile", ()):                    # re.compile returns a pattern object (A10)
         new.append(is_pattern(t))
         new.append(t != NONE)
+    for (cat_, cn_) in (("mk_save", "_LazySave"), ("mk_memo", "_LazyMemo")):
+        for t in found.get(cat_, ()):                        # a queue item is a record of its class holding its payload
+            new.append(cls_of(t) == Const(f"class:{cn_}", Cls))
+            new.append(item_obj(t) == t.arg(0))
+            new.append(t != NONE)
     for t in found["nth"]:
         if t.sort().eq(Ref):                                 # getElem_mem
             s, i = t.arg(0), t.arg(1)
